@@ -6,18 +6,20 @@
    plain id (the tape parser decides by context whether an rgb block follows); [untape] is the token
    sequence a tape denotes (Rgb -> the tokens of its block); both sides without Equal tokens.
 
-   FULL STATEMENT (false for the code as it is, finding L):
-     forall bytes t, parse_ref bytes = Ok t ->
-       exists toks, raw_lex bytes = Some toks /\ ghost_erase (noeq toks) (noeq (untape t))
-   i.e. the stream is the tape plus deleted adjacent `{ }` pairs.  What is proved:
-     * C03_tape_subseq_of_lexer_tokens (unconditional): every token of the tape is a token of the stream,
-       same type, same payload, same order -- nothing fabricated, altered or reordered;
-     * C03_tape_mirrors_lexer_tokens_partial: under [odd_hit bytes = false] (the run never takes the
-       only_empties branch with an odd remainder) the stream is the tape plus inserted `{ }` pairs --
-       [ghost_groups], which also admits nested pairs `{ { } }` (the proof carries the relation on the
-       flat sequences and cannot tell that the deleted pairs were adjacent in the stream); the strict
-       relation [ghost_erase] is what the kind bt.mir decides on the real tapes (C03_mirror_decider);
-     * C03_mirror_refuted: without the exclusion the statement is false, the witness loses the value x. *)
+   * C03_tape_subseq_of_lexer_tokens: every token of the tape is a token of the stream, same type, same
+     payload, same order -- nothing fabricated, altered or reordered;
+   * C03_tape_mirrors_lexer_tokens: the stream is the tape plus inserted `{ }` pairs ([ghost_groups]);
+     unconditional since the fix for finding L (the `only_empties` test of tape.rs now requires
+     `pairs.remainder().is_empty()`; before, `a = { {} x y = z }` lost x and the theorem carried the
+     hypothesis that the run never meets an odd remainder);
+   * C03_tape_keeps_every_payload: hence every token of the stream other than `{`, `}`, `=` is on the tape;
+   * C03_witness_L_mirrors: regression example, the former witness of finding L now mirrors exactly.
+
+   What the relation does NOT say: [ghost_groups] inserts pairs one after the other at any place, so it
+   also admits a nested `{ { } }` as inserted material (the proof carries the relation on the flat
+   sequences and cannot tell that the deleted pairs were adjacent in the stream).  The strict relation
+   [ghost_erase] (adjacent, un-nested pairs only) is what the kind bt.mir decides on the real tapes for
+   every accepted input of every stream (C03_mirror_decider), and ghost_erase implies ghost_groups. *)
 From JV Require Import Bytes Tables BinPrim BinTape BinTapeMirror.
 From JV.proofs Require Import BinTapeMirrorProofs.
 
@@ -31,23 +33,30 @@ Theorem C03_opt_tape_subseq_of_lexer_tokens : forall bytes t, parse_opt bytes = 
 Proof. exact opt_tape_subseq. Qed.
 Print Assumptions C03_opt_tape_subseq_of_lexer_tokens.
 
-Theorem C03_tape_mirrors_lexer_tokens_partial : forall bytes t, parse_ref bytes = Ok t -> odd_hit bytes = false ->
+Theorem C03_tape_mirrors_lexer_tokens : forall bytes t, parse_ref bytes = Ok t ->
   exists toks, raw_lex bytes = Some toks /\ ghost_groups (noeq toks) (noeq (untape t)).
 Proof. exact ref_tape_mirror. Qed.
-Print Assumptions C03_tape_mirrors_lexer_tokens_partial.
+Print Assumptions C03_tape_mirrors_lexer_tokens.
 
-Theorem C03_opt_tape_mirrors_lexer_tokens_partial : forall bytes t, parse_opt bytes = Ok t -> odd_hit bytes = false ->
+Theorem C03_opt_tape_mirrors_lexer_tokens : forall bytes t, parse_opt bytes = Ok t ->
   exists toks, raw_lex bytes = Some toks /\ ghost_groups (noeq toks) (noeq (untape t)).
 Proof. exact opt_tape_mirror. Qed.
-Print Assumptions C03_opt_tape_mirrors_lexer_tokens_partial.
+Print Assumptions C03_opt_tape_mirrors_lexer_tokens.
 
-(* finding L: `a = { {} x y = z }` (ids 0x2d82..0x2d85) -- both parsers accept, the lexer sees x = Id 11651,
-   the tape does not hold it, and the strict decider says no *)
-Theorem C03_mirror_refuted : exists bytes t toks,
-  parse_ref bytes = Ok t /\ parse_opt bytes = Ok t /\ raw_lex bytes = Some toks /\
-  In (BId 11651%N) toks /\ ~ In (TToken 11651%N) t /\ mirrorb toks t = false.
-Proof. exact mirror_refuted. Qed.
-Print Assumptions C03_mirror_refuted.
+Theorem C03_tape_keeps_every_payload : forall bytes t, parse_opt bytes = Ok t \/ parse_ref bytes = Ok t ->
+  exists toks, raw_lex bytes = Some toks /\
+    forall x, In x toks -> x <> BOpen -> x <> BClose -> x <> BEqual -> In x (untape t).
+Proof. exact tape_keeps_payloads. Qed.
+Print Assumptions C03_tape_keeps_every_payload.
+
+(* regression example for finding L (fixed): `a = { {} x y = z }` (ids 0x2d82..0x2d85) is a mixed array that
+   keeps the leading `{}` and x = Id 11651, and the strict decider accepts it *)
+Theorem C03_witness_L_mirrors : exists t toks,
+  parse_ref witness_L = Ok t /\ parse_opt witness_L = Ok t /\ raw_lex witness_L = Some toks /\
+  t = [TToken 11650%N; TArray 9; TArray 3; TEnd 2; TToken 11651%N; TMixed; TToken 11652%N; TEqual; TToken 11653%N; TEnd 1] /\
+  In (BId 11651%N) toks /\ In (TToken 11651%N) t /\ mirrorb toks t = true.
+Proof. exact witness_L_mirrors. Qed.
+Print Assumptions C03_witness_L_mirrors.
 
 (* the executable checks that the correspondence stream `mirror` runs (model side; the harness side
    computes the same two flags from the real Lexer and the real tape) decide the relations above *)
@@ -61,11 +70,10 @@ Proof. exact mirrorb_groups. Qed.
 Theorem C03_submirror_decider : forall toks t, submirrorb toks t = true -> subseq (noeq toks) (noeq (untape t)).
 Proof. exact submirrorb_sound. Qed.
 
-(* non-vacuity: a mixed container (array turning into a key-value list) is accepted, never hits the odd
-   case, and is mirrored exactly: `a = { 1 b = c }` *)
+(* non-vacuity: a mixed container (array turning into a key-value list) is accepted and mirrored
+   exactly: `a = { 1 b = c }` *)
 Example C03_mirror_nonvacuous :
   let bytes := [130;45; 1;0; 3;0; 12;0; 1;0;0;0; 131;45; 1;0; 132;45; 4;0]%N in
   parse_ref bytes = Ok [TToken 11650%N; TArray 7; TI32 1%Z; TMixed; TToken 11651%N; TEqual; TToken 11652%N; TEnd 1]
-  /\ odd_hit bytes = false
   /\ raw_lex bytes = Some [BId 11650%N; BEqual; BOpen; BI32 1%Z; BId 11651%N; BEqual; BId 11652%N; BClose].
 Proof. vm_compute. repeat split. Qed.
